@@ -419,8 +419,9 @@ def stereoDequant (q sub : Nat) : Int :=
   let step := (tab.getD (q + 1) 0 - low) * 6554 / 65536
   low + step * (2 * (sub : Int) + 1)
 
-/-- `silk_stereo_decode_pred` (stereo_decode_pred.c:35-63). -/
-def stereoDecodePred (c : Dec) : StereoPred × Dec :=
+/-- Entropy-decoding half of `silk_stereo_decode_pred` (stereo_decode_pred.c:44-50):
+    the joint symbol `n` and `ix[0][0]`, `ix[0][1]`, `ix[1][0]`, `ix[1][1]`. -/
+def stereoIx (c : Dec) : (Nat × Nat × Nat × Nat × Nat) × Dec :=
   match sym c silk_stereo_pred_joint_iCDF with
   | (n, c1) =>
   match sym c1 silk_uniform3_iCDF with
@@ -430,10 +431,18 @@ def stereoDecodePred (c : Dec) : StereoPred × Dec :=
   match sym c3 silk_uniform3_iCDF with
   | (b0, c4) =>
   match sym c4 silk_uniform5_iCDF with
-  | (b1, c5) =>
-    ({ ix := [a0, a1, n / 5, b0, b1, n - 5 * (n / 5)], q0 := a0 + 3 * (n / 5), q1 := b0 + 3 * (n - 5 * (n / 5)),
-       pred0 := stereoDequant (a0 + 3 * (n / 5)) a1 - stereoDequant (b0 + 3 * (n - 5 * (n / 5))) b1,
-       pred1 := stereoDequant (b0 + 3 * (n - 5 * (n / 5))) b1 }, c5)
+  | (b1, c5) => ((n, a0, a1, b0, b1), c5)
+
+/-- Dequantising half (stereo_decode_pred.c:45-46, 53-62): `ix[0][2] = n/5`, `ix[1][2] = n - 5*ix[0][2]`. -/
+def stereoMk (n a0 a1 b0 b1 : Nat) : StereoPred :=
+  { ix := [a0, a1, n / 5, b0, b1, n - 5 * (n / 5)], q0 := a0 + 3 * (n / 5), q1 := b0 + 3 * (n - 5 * (n / 5)),
+    pred0 := stereoDequant (a0 + 3 * (n / 5)) a1 - stereoDequant (b0 + 3 * (n - 5 * (n / 5))) b1,
+    pred1 := stereoDequant (b0 + 3 * (n - 5 * (n / 5))) b1 }
+
+/-- `silk_stereo_decode_pred` (stereo_decode_pred.c:35-63). -/
+def stereoDecodePred (c : Dec) : StereoPred × Dec :=
+  match stereoIx c with
+  | ((n, a0, a1, b0, b1), c5) => (stereoMk n a0 a1 b0 b1, c5)
 
 /-- `silk_stereo_decode_mid_only` (stereo_decode_pred.c:66-73). -/
 def stereoDecodeMidOnly (c : Dec) : Nat × Dec := sym c silk_stereo_only_code_mid_iCDF
